@@ -173,7 +173,7 @@ pub fn run(o: &crate::Opts) {
             *kinds.entry("corpus").or_default() += 1;
         }
     }
-    let total: u64 = if o.thorough { 300_000 } else { 16_000 };
+    let total: u64 = if o.thorough { 160_000 } else { 16_000 };
     let per = total / o.nshards as u64;
     for k in 0..per {
         let p = if k % 4 == 3 { gen_random_image(&mut rng) } else { gen_structured(&mut rng) };
